@@ -21,7 +21,7 @@ THEOREMS = ["Nmfu.C05_optimised_equivalent", "Nmfu.C05_lag_at_most_one_step",
 # (compared with the real pass on every invocation observed) leaves every dispatch tree unchanged
 OPT_THEOREMS = ["Nmfu.C05_simplify_else_preserves", "Nmfu.C05_simplify_else_preserves_with_start",
                 "Nmfu.Machine.simplifyElse_dispatch", "Nmfu.feedArm_simplify", "Nmfu.endArm_simplify",
-                "Nmfu.simplifyElse_needs_determinism"]
+                "Nmfu.simplifyElse_needs_determinism", "Nmfu.Machine.simplifyElse_idem", "Nmfu.Machine.simplifyElse_deterministic"]
 PASS_CFGS = ("O3", "O0+simplify", "O0+remove", "O1")
 
 
